@@ -243,7 +243,12 @@ def main():
                     conn.cursor().execute(sql)
                 except Exception as e:  # noqa: BLE001
                     log[-1] += f"   -- {type(e).__name__}"
-            ob, cross = observe({"DB1": conn, "DB2": conn2})
+            try:
+                ob, cross = observe({"DB1": conn, "DB2": conn2})
+            except Exception as e:  # noqa: BLE001
+                # the metadata queries themselves fail (eg the session's transaction was aborted behind the user's back)
+                report("observe", f"after `{log[-1]}` the metadata queries raise {type(e).__name__}: {str(e)[:160]}", {"statements": list(log), "op": o})
+                break
             trace.append(ob)
             cr.append(cross)
         fs.duck_conn.close()
